@@ -15,7 +15,7 @@ pub struct Gen {
     pub nice_floats: bool,
 }
 
-const KEY_POOL: &[&str] = &["", "a", "A", "b", "B", "ab", "aB", "Ab", "id", "Name", "name", "é", "É", "k1", "😀", "a b", "\"", "z\u{1}", "key", "KEY", "Key"];
+const KEY_POOL: &[&str] = &["", "a", "A", "b", "B", "ab", "aB", "Ab", "id", "Name", "name", "é", "É", "k1", "😀", "a b", "\"", "z\u{1}", "key", "KEY", "Key", "0", "1", "-1", "2"];
 const STR_POOL: &[&str] = &["", "a", "ab", "true", "FALSE", "12", "-7", "1.5", "null", "é", "😀", "\u{2028}", "a\"b", "back\\slash", "\n", "\u{0}", "\u{7f}", "x/y", "\u{fffd}", "\u{10ffff}", "\u{e000}", "\u{d7ff}"];
 
 impl Gen {
@@ -290,6 +290,11 @@ fn keypath_of(g: &mut Gen, v: &Value) -> J {
                     break;
                 }
                 let k = (*g.pick(&keys)).clone();
+                // a key that reads as an integer, written as an index element: never a member access
+                if let (Ok(n), 0) = (k.parse::<i32>(), g.r.gen_range(0..3)) {
+                    out.push(json!({"i": n}));
+                    break;
+                }
                 if g.r.gen() { out.push(json!({"n": bytes_to_j(k.as_bytes())})); } else { out.push(json!({"q": bytes_to_j(k.as_bytes())})); }
                 cur = &o[&k];
             }
